@@ -32,6 +32,7 @@ func init() {
 			{"C17-R8", "endpoint lists are never built in map iteration order", c17r8},
 			{"C17-R9", "no last-one-wins assignment under a map range", c17r9},
 			{"C17-R10", "a sort of map keys separates distinct keys", c17r10},
+			{"C17-R11", "no one-entry-per-computed-key while walking in map order", c17r11},
 		},
 	})
 }
@@ -288,6 +289,83 @@ func mapRangesWithAppend(fn *ssa.Function) []mapRangeAppend { return unorderedLo
 
 // ---- lists in map order ----
 
+// c17Derived: module functions (and the interface methods they implement) whose result is a list in map order - they
+// return the result of a producer, unsorted. Computed to a fixpoint over the analysed graph by deriveProducers.
+var c17Derived map[string]bool
+
+// deriveProducers: functions of the module in `fns` that return a map-ordered list (a producer's result, or the result of
+// another such function, not sorted before the return). Interface methods are added when an implementation is one.
+func deriveProducers(p *Prog, fns []*ssa.Function) map[string]bool {
+	c17Derived = map[string]bool{}
+	for round := 0; round < 4; round++ {
+		changed := false
+		for _, fn := range fns {
+			if len(fn.Blocks) == 0 || isWrapperFn(fn) || strings.HasSuffix(p.Fset.Position(fn.Pos()).Filename, "_test.go") {
+				continue
+			}
+			o, ok := fn.Object().(*types.Func)
+			if !ok {
+				if fn.Origin() != nil {
+					o, ok = fn.Origin().Object().(*types.Func)
+				}
+				if !ok {
+					continue
+				}
+			}
+			o = o.Origin()
+			if c17Derived[o.FullName()] {
+				continue
+			}
+			if fn.Signature.Results().Len() == 0 {
+				continue
+			}
+			if _, isSl := fn.Signature.Results().At(0).Type().Underlying().(*types.Slice); !isSl {
+				continue
+			}
+			uses, _, _ := unorderedListUses(fn)
+			ret := false
+			for _, u := range uses {
+				if u.use == "returned" {
+					ret = true
+				}
+			}
+			if !ret {
+				continue
+			}
+			c17Derived[o.FullName()] = true
+			changed = true
+			// interface methods this method implements
+			if recv := o.Type().(*types.Signature).Recv(); recv != nil {
+				for _, pk := range p.Pkgs {
+					if !strings.HasPrefix(pk.PkgPath, istioMod+"/pilot/pkg/model") {
+						continue
+					}
+					sc := pk.Types.Scope()
+					for _, nm := range sc.Names() {
+						tn, ok := sc.Lookup(nm).(*types.TypeName)
+						if !ok {
+							continue
+						}
+						it, ok := tn.Type().Underlying().(*types.Interface)
+						if !ok || !types.Implements(recv.Type(), it) {
+							continue
+						}
+						for i := 0; i < it.NumMethods(); i++ {
+							if it.Method(i).Name() == o.Name() {
+								c17Derived[it.Method(i).FullName()] = true
+							}
+						}
+					}
+				}
+			}
+		}
+		if !changed {
+			break
+		}
+	}
+	return c17Derived
+}
+
 // unorderedProducer: a call whose result is a slice in map-iteration order.
 func unorderedProducer(ins ssa.Instruction) string {
 	call, ok := ins.(*ssa.Call)
@@ -299,11 +377,17 @@ func unorderedProducer(ins ssa.Instruction) string {
 		if m.Name() == "List" && m.Pkg() != nil && strings.HasSuffix(m.Pkg().Path(), "istio/pkg/kube/krt") {
 			return "krt List"
 		}
+		if c17Derived != nil && c17Derived[m.FullName()] {
+			return "result of " + m.Name() + " (map order)"
+		}
 		return ""
 	}
 	o := calleeObj(ins)
 	if o == nil || o.Pkg() == nil {
 		return ""
+	}
+	if c17Derived != nil && c17Derived[o.FullName()] {
+		return "result of " + o.Name() + " (map order)"
 	}
 	pp, n := o.Pkg().Path(), o.Name()
 	switch {
@@ -344,6 +428,8 @@ func isOrderInsensitiveSink(ins ssa.Instruction) bool {
 		switch n {
 		case "Contains", "ContainsFunc", "FindFunc", "Index", "IndexFunc": // membership (FindFunc/Index on unique predicates)
 			return n == "Contains" || n == "ContainsFunc"
+		case "EqualUnordered":
+			return true
 		}
 	}
 	return false
@@ -563,6 +649,19 @@ func c17r1(c *Ctx) {
 		fns = append(fns, fn)
 	}
 	sort.Slice(fns, func(i, j int) bool { return fnKey(fns[i]) < fnKey(fns[j]) })
+	// module functions that hand on a producer's result unsorted are producers themselves (ServicesForWaypoint, the
+	// config stores' List): computed to a fixpoint over the analysed graph
+	{
+		d := deriveProducers(p, fns)
+		var names []string
+		for n := range d {
+			names = append(names, n)
+		}
+		sort.Strings(names)
+		c.Infof("derived producers (functions returning a list in map order): %v", names)
+		c.Check("derived producers found (positive control)", token.NoPos, len(names) >= 10, fmt.Sprintf("%d module functions returning a list in map order", len(names)))
+	}
+	defer func() { c17Derived = nil }()
 	total, unsortedAll, listFns := 0, 0, 0
 	var census []string
 	for _, fn := range fns {
